@@ -56,7 +56,7 @@ MonthAccepted(inp) == MonthOf(inp) # 0          \* 0 = rejected
 (* variants of the discriminated unions and optional sections *)
 SpectrumVariants == {"mono", "power"}
 CloudVariants == {"none", "mono_neg_inf", "mono_finite", "map_int_version", "map_str_version"}
-StringClasses == {"plain", "quote", "backslash", "nonascii", "newline", "empty"}
+StringClasses == {"plain", "quote", "backslash", "nonascii", "newline", "crlf", "empty"}
 Variants == [spectrum : SpectrumVariants, cloud : CloudVariants, mode : {"Diffuse", "Target"}, title : StringClasses,
              optional_none : {"", "sun_moon", "optical", "radio", "ionosphere", "target"}]
 (* a configuration with an optional section set to None cannot be represented in TOML *)
